@@ -2,6 +2,21 @@
 """Writes /verif/seeded/README.md from seeded/*/meta.json, result.json and the notes below."""
 import glob, json, os
 NOTES = {
+    'C01_3': 'round 2; missed at first (no explicit multi-topic subscription to a source with a varying topic set behind a skipping relay); C01 gained ExplicitMulti - caught since',
+    'C01_4': 'round 2; missed at first, caught since by the same ExplicitMulti topology',
+    'C02_3': 'round 2; missed at first (the simulated network copied every part at send time); simzmq now reads copy=False buffers >= 64 KiB at delivery time and the content pipeline reuses one large pixel buffer - caught since',
+    'C02_4': 'round 2; missed at first (subscriptions were never written in the short forms); the harness now renders "b>" / ">m" and C02 gained RemapMain - caught since',
+    'C03_3': 'round 2; missed at first (no process() ever returned an empty dict); C03 gained Chain3Empty - caught since',
+    'C03_4': 'round 2; missed at first (the publisher always existed before its consumers and SUB links were established promptly); C03 gained the late publisher with a slow SUB connection - caught since',
+    'C04_3': 'round 2; NOT caught: needs blocking sends (timeout=None) with two consumers and one send() blocked longer than the connection timeout; the harness drives Filter.loop_once (100 ms slices) only, where the change has no effect',
+    'C04_4': 'round 2; missed at first (no non-balanced publisher bound to two addresses); C04 gained the TwoAddr stall scenario - caught since',
+    'C05_3': 'round 2; missed at first; C05 gained the eph-first differential with a slow mixed consumer and a long stream (restricted to what each consumer gets from its synchronized sources) - caught since',
+    'C05_4': 'round 2; NOT caught: needs a registered "?" listener next to a registered slow worker on one endpoint of a balanced publisher with the other workers slower than the listener; the late-listener differential does not reach it (and the unchanged tree already misbehaves when the listener attaches first: known finding C05-balanced-listener-first)',
+    'C06_4': 'round 2; missed at first (no balanced topology in the fault enumeration); C06 gained kill/restart of a worker of a balanced splitter that is the bottleneck - caught since',
+    'C07_3': 'round 2; missed at first (the balanced rejoin was always a sink); C07 gained Balance2Relay and a stored schedule - caught since',
+    'C07_4': 'round 2; missed at first (no worker ever ended cleanly mid-stream); with exits now part of the specification C07 gained Balance3 with a worker ending cleanly and a stored schedule - caught since',
+    'C08_4': 'round 2; missed at first (the virtual monotonic clock equalled the virtual wall clock); they now differ - caught since',
+    'C18_4': 'round 2; missed at first (one run per emitter); the emitter probe now performs consecutive runs on one emitter - caught since',
     'C08_2': 'missed at first (the exiting filter always ended after the pipeline was connected); C08 gained the exit-in-setup variant of every uniform-policy propagation case (judged over the loss-free upstream direction) - caught since',
     'C18_1': 'missed at first (the harness replaced the emitter lock by a no-op and made check+emit of the heartbeat atomic); C18 gained the emitter-level lock-discipline probe (cooperative lock, emit() yields before the event leaves, random interleavings) - caught since',
     'C02_1': 'missed at first (no consumer ever joined late; C02_Payload did not compare the id a frame was published under with the id it was delivered as); C02 gained the JoinLate topology with a late-join fault and the id comparison - caught since',
